@@ -42,7 +42,9 @@ Refused(ev) == \/ (Kind(ev) = "gdf"  /\ ev.pe = "split" /\ ev.proj # "none" /\ e
 GeomTag(ev) == [ kind |-> Kind(ev), pe |-> ev.pe, proj |-> ev.proj, eng |-> ev.eng, project |-> ev.project ]
 \* values of the side tables as functions of the arguments that computed them
 AmVal(ev)   == Cl(ev.proj)                               \* crossing faces depend on where the seam is
-NnVal(ev)   == IF ev.proj # "none" /\ ev.project THEN <<"arange", Cl(ev.proj)>> ELSE <<"None", "-">>
+\* projections that show only part of the sphere leave NaN polygons out: their table is their own
+Partial(proj) == proj \in {"ortho", "nsper"}
+NnVal(ev)   == IF ev.proj # "none" /\ ev.project THEN <<"arange", IF Partial(ev.proj) THEN ev.proj ELSE Cl(ev.proj)>> ELSE <<"None", "-">>
 CorrVal(ev) == IF ev.pe = "ignore" THEN <<"empty", "-">> ELSE <<ev.pe, Cl(ev.proj)>>
 NA == "na"
 NA2 == <<"na", "-">>
